@@ -115,6 +115,10 @@ pub struct Behav {
     /// for this long (ms)
     #[serde(default)]
     pub hold_pipes_ms: u32,
+    /// what the command writes when it is executed a second time in the same run (a command named twice in the
+    /// documented order); empty = the same as the first time
+    #[serde(default)]
+    pub outs_again: Vec<OutStep>,
 }
 
 #[derive(Serialize, Deserialize, Clone, Copy, Debug, PartialEq)]
@@ -650,7 +654,8 @@ pub fn drive_run_l(w: &mut World, actor: &str, sc: &RunScript, hang: Duration, l
                             if tt != t || cc != c {
                                 tr.log.push(format!("hello-mismatch wanted {} {} got {} {}", c, t, cc, tt));
                             }
-                            let script: VecDeque<OutStep> = sc.behav_for(&cc, &tt).map(|b| b.outs.iter().cloned().collect()).unwrap_or_default();
+                            let again = tr.helpers.iter().any(|x| x.command == cc && x.target == tt);
+                            let script: VecDeque<OutStep> = sc.behav_for(&cc, &tt).map(|b| if again && !b.outs_again.is_empty() { b.outs_again.iter().cloned().collect() } else { b.outs.iter().cloned().collect() }).unwrap_or_default();
                             tr.log.push(format!("hello {} {}", cc, tt));
                             tr.helpers.push(HelperRec {
                                 command: cc, target: tt, conn: h.conn, pid: h.pid, argv0: h.argv0, argv: h.args, cwd: h.cwd,
